@@ -28,6 +28,9 @@ type FuncCfg struct {
 	Recv     string            `json:"recv"`     // type name to treat the receiver as (record name)
 	Results  []string          `json:"results"`  // per result: "" keep, "skip" drop
 	DropArgs []string          `json:"dropargs"` // parameter names to drop
+	// Opaque maps the source text of a callee (e.g. "m.Handler.HandleProposedHeader") to "param:type":
+	// the call's result is an input of the generated function (an extra parameter), its arguments are not evaluated.
+	Opaque map[string]string `json:"opaque"`
 }
 
 type RecordCfg struct {
@@ -571,6 +574,10 @@ func (e *env) call(v *ast.CallExpr) exprOut {
 		b := append(a.binds, bind{t, fmt.Sprintf("be_uint16 %s \"%s:%d\"", a.term, e.fn, m.line(v.Pos()))})
 		return exprOut{binds: b, term: t, ty: Ty{Kind: "uint", Bits: 16}}
 	}
+	if spec, ok := e.fc.Opaque[name]; ok {
+		parts := strings.SplitN(spec, ":", 2)
+		return exprOut{term: parts[0], ty: parseTy(parts[1], m)}
+	}
 	if spec, ok := m.cfg.Calls[name]; ok {
 		// "coqname:res:type" or "coqname:pure:type"
 		parts := strings.SplitN(spec, ":", 3)
@@ -904,6 +911,19 @@ func (m *modCtx) translateFunc(f *ast.File, fc FuncCfg, src []byte) {
 		for _, n := range p.Names {
 			addParam(n.Name, exprString(m.fset, p.Type))
 		}
+	}
+	var opaqueKeys []string
+	for k := range fc.Opaque {
+		opaqueKeys = append(opaqueKeys, k)
+	}
+	sort.Strings(opaqueKeys)
+	for _, k := range opaqueKeys {
+		parts := strings.SplitN(fc.Opaque[k], ":", 2)
+		if len(parts) != 2 {
+			fail("opaque spec for %s must be param:type", k)
+		}
+		t := parseTy(parts[1], m)
+		params = append(params, fmt.Sprintf("(%s : %s)", parts[0], t.coq()))
 	}
 	// named results become zero-initialised locals
 	var resTys []string
